@@ -591,16 +591,33 @@ func runCase(c Case, u *vf.Unit, trace *any) *vf.Verdict {
 		// datagram receivers only end with the connection: wait for the stream work first
 		wgStreams(&wg, c, o, cconn, sconn, done)
 	}()
-	// a transfer limited by small flow-control windows needs size/window round trips: give it three times that
-	stallLimit := 140 * time.Second
-	if c.WinKB > 0 {
-		var total int
-		for _, s := range c.Streams {
-			total += s.Size + s.RevSize
+	// A stall is the absence of progress, not slowness (2 MiB written 24 bytes at a time over a 200 ms path takes
+	// minutes): the transfers are stalled when no reader received a byte and no writer finished for 60 s of virtual
+	// time - longer than any configured idle timeout - while neither connection reports an error.
+	progress := func() int {
+		o.mu.Lock()
+		defer o.mu.Unlock()
+		n := 0
+		for _, r := range o.results {
+			n += r.got + r.wrote
+			if r.eof || r.closed || r.cancelled {
+				n++
+			}
 		}
-		stallLimit += 3 * time.Duration(total/(c.WinKB<<10)+1) * time.Duration(c.RTTms) * time.Millisecond
+		return n
 	}
-	stalled := !sim.WaitCtx(done, stallLimit)
+	stalled := false
+	for last, idleFor := progress(), time.Duration(0); ; {
+		if sim.WaitCtx(done, 20*time.Second) {
+			break
+		}
+		if now := progress(); now != last {
+			last, idleFor = now, 0
+		} else if idleFor += 20 * time.Second; idleFor >= 60*time.Second {
+			stalled = true
+			break
+		}
+	}
 	cerr, serr := context.Cause(cconn.Context()), context.Cause(sconn.Context())
 	endAt := w.Router.Now()
 	if cerr == nil && serr == nil {
@@ -729,7 +746,7 @@ func runCase(c Case, u *vf.Unit, trace *any) *vf.Verdict {
 	// something did not complete: it must be justified by the network
 	if cerr == nil && serr == nil {
 		if stalled {
-			return vf.Bad("C01/liveness/stall", "transfers did not finish within the stall limit (140 s + 3 x size/window round trips of virtual time) although neither connection reports an error; results: %s", summarize(o))
+			return vf.Bad("C01/liveness/stall", "no reader received a byte and no writer finished for 60 s of virtual time although neither connection reports an error; results: %s", summarize(o))
 		}
 		return vf.Bad("C01/liveness/incomplete", "all calls returned, neither connection reports an error, but transfers are incomplete: %s", summarize(o))
 	}
